@@ -39,8 +39,10 @@ func Observe(name string, v uint64)
 // SetUnwind sets the loop unwinding limit; violation makes exceeding it a property violation (C05) instead of an inconclusive run.
 func SetUnwind(k int, violation bool)
 
-// HavocLoop(fn, true) replaces the loop-carried scalars of the loops of function fn by fresh values on entry (loop cut).
-func HavocLoop(fn string, on bool)
+// HavocLoop(fn, v) makes the loop-carried scalar v of the first loop of every later call of fn start
+// from one fresh symbolic value (loop cut, always the same value); v == "" switches the cut off.
+// The engine checks the side conditions (no stores/calls in the loop, other phis are counters).
+func HavocLoop(fn string, v string)
 func HavocUsed(fn string) bool
 
 // UF32 is an uninterpreted 32-bit function of a byte string.
